@@ -7,7 +7,7 @@
 (* is reported, otherwise it stays all zero).                               *)
 (* Declarative predicates for property C20 are at the end.                  *)
 (***************************************************************************)
-EXTENDS Lex
+EXTENDS Lex, FiniteSets
 
 DstLen == 4                                  \* len(dst) used by the harness (args.dst)
 
@@ -211,6 +211,37 @@ DQ_Completable(s, dots) ==          \* s = what is left, dots = dots still neede
   LET k == IndexByteFrom(s, 0, DOT) IN
     IF k = -1 THEN DQ_IsPartialGroup(s)
     ELSE dots > 0 /\ IsGroup(Slice(s, 0, k)) /\ DQ_Completable(Slice(s, k + 1, Len(s)), dots - 1)
+----------------------------------------------------------------------------
+(***************************************************************************)
+(* IPv6, declaratively (beyond C20, which speaks about IPv4 only):          *)
+(* soundness of what IP6Prefix / ContainsIP6 report -- the reported span is *)
+(* an RFC 4291 text address (forms 1 and 2: eight groups of 1..4 hex        *)
+(* digits, or fewer with exactly one "::"), optionally in brackets.         *)
+(***************************************************************************)
+IsHexDig(c) == IsDigit(c) \/ (c >= 97 /\ c <= 102) \/ (c >= 65 /\ c <= 70)
+\* positions (1-based) of the colons of q
+V6Colons(q) == {k \in 1..Len(q) : q[k] = COLON}
+\* the maximal colon-free pieces of q are hex groups of 1..4 digits (empty pieces only next to a "::")
+V6GroupsOk(q) ==
+  \A i \in 1..Len(q) : q[i] # COLON =>
+     /\ IsHexDig(q[i])
+     /\ \E a \in 1..i : \E b \in i..Len(q) :
+          /\ b - a + 1 <= 4
+          /\ (a = 1 \/ q[a - 1] = COLON) /\ (b = Len(q) \/ q[b + 1] = COLON)
+          /\ \A k \in a..b : q[k] # COLON
+V6NGroups(q) == Cardinality({i \in 1..Len(q) : q[i] # COLON /\ (i = 1 \/ q[i - 1] = COLON)})
+V6DoubleAt(q) == {k \in 1..(Len(q) - 1) : q[k] = COLON /\ q[k + 1] = COLON}
+IsIP6Bare(q) ==
+  /\ Len(q) >= 2 /\ V6GroupsOk(q)
+  /\ Cardinality(V6DoubleAt(q)) <= 1                                    \* at most one "::" (":::" would be two)
+  /\ (q[1] = COLON => 1 \in V6DoubleAt(q))                              \* a leading / trailing colon is part of the "::"
+  /\ (q[Len(q)] = COLON => (Len(q) - 1) \in V6DoubleAt(q))
+  /\ IF V6DoubleAt(q) = {} THEN V6NGroups(q) = 8 ELSE V6NGroups(q) <= 7
+IsIP6Text(q) == IF Len(q) >= 2 /\ q[1] = LBRACK THEN q[Len(q)] = RBRACK /\ IsIP6Bare(SubSeq(q, 2, Len(q) - 1)) ELSE IsIP6Bare(q)
+\* r = [ok, n, err, ip] of IP6Prefix / r = [ok, at, len, ip] of ContainsIP6
+Prefix6Sound(s, r)   == r.ok => (r.n >= 2 /\ r.n <= Len(s) /\ IsIP6Text(Slice(s, 0, r.n)))
+Contains6Sound(s, r) == r.ok => (r.at >= 0 /\ r.at + r.len <= Len(s) /\ IsIP6Text(Slice(s, r.at, r.at + r.len)))
+
 PrefixDeclRejected(s, r) ==
   ~r.ok => /\ r.err = (IF DQ_Completable(s, 3) THEN MORE ELSE BAD)
            /\ r.ip = ZeroDst(Len(r.ip))
